@@ -146,57 +146,57 @@ type fnExec struct {
 	pkg  *types.Package
 	tags struct{ fun, safety []string }
 
-	declLines []string
-	declSeen  map[string]bool
-	asserts   []assertion
-	vals      map[ssa.Value]val
-	out       map[int]*state
-	reach     map[int]string
-	edge      map[[2]int]string
-	anc       map[int]map[int]bool
-	order     []*ssa.BasicBlock
-	backEdge  map[[2]int]bool
-	loops     map[int]*loopInfo // by head index
-	curBlk    int
-	nfresh    int
-	heapSort  map[string]string
-	entry     *state
-	params    map[string]sval
-	obls      []*Obligation
-	oblByName map[string]*Obligation
-	textCount map[string]int
-	nodeText  map[token.Pos]string
-	callCount map[string]int
-	retParts  []retPoint
-	defers    []*ssa.Defer
-	unsupported []string
-	ufSeen    map[string]bool
-	modLocs   []loc // evaluated modifies at entry
+	declLines       []string
+	declSeen        map[string]bool
+	asserts         []assertion
+	vals            map[ssa.Value]val
+	out             map[int]*state
+	reach           map[int]string
+	edge            map[[2]int]string
+	anc             map[int]map[int]bool
+	order           []*ssa.BasicBlock
+	backEdge        map[[2]int]bool
+	loops           map[int]*loopInfo // by head index
+	curBlk          int
+	nfresh          int
+	heapSort        map[string]string
+	entry           *state
+	params          map[string]sval
+	obls            []*Obligation
+	oblByName       map[string]*Obligation
+	textCount       map[string]int
+	nodeText        map[token.Pos]string
+	callCount       map[string]int
+	retParts        []retPoint
+	defers          []*ssa.Defer
+	unsupported     []string
+	ufSeen          map[string]bool
+	modLocs         []loc // evaluated modifies at entry
 	assumptionsUsed map[string]bool
-	calleesUsed map[string]bool
-	goCount   int
-	storeCount map[string]int
-	globals   map[string]string
-	heapElemType map[string]types.Type
-	heapDepth map[string]int
-	textPos   map[string][]token.Pos
-	anchors   map[ssa.Instruction]anchorInfo
-	usedAnchors map[*Clause]bool
-	deferArgs map[*ssa.Defer][]val
-	deferFn   map[*ssa.Defer]val
-	nreturns  int
-	measure   string
-	pendingWT [][2]interface{}
-	pendingInv [][2]interface{}
-	warnings  []string
-	spawns    map[string]*spawnInfo
-	kb        int // key base for block-indexed maps (non-zero while executing an inlined callee)
-	ck        int // current block key (kb + block index)
-	inl       *inlineCtx
-	inlineCount int
-	inlineStack []*ssa.Function
-	oblPrefix string
-	curState  *state
+	calleesUsed     map[string]bool
+	goCount         int
+	storeCount      map[string]int
+	globals         map[string]string
+	heapElemType    map[string]types.Type
+	heapDepth       map[string]int
+	textPos         map[string][]token.Pos
+	anchors         map[ssa.Instruction]anchorInfo
+	usedAnchors     map[*Clause]bool
+	deferArgs       map[*ssa.Defer][]val
+	deferFn         map[*ssa.Defer]val
+	nreturns        int
+	measure         string
+	pendingWT       [][2]interface{}
+	pendingInv      [][2]interface{}
+	warnings        []string
+	spawns          map[string]*spawnInfo
+	kb              int // key base for block-indexed maps (non-zero while executing an inlined callee)
+	ck              int // current block key (kb + block index)
+	inl             *inlineCtx
+	inlineCount     int
+	inlineStack     []*ssa.Function
+	oblPrefix       string
+	curState        *state
 }
 
 type inlineCtx struct {
@@ -229,14 +229,14 @@ type retPoint struct {
 }
 
 type loc struct {
-	arr   string // heap array name ("" for ghost)
-	sort  string
-	idx   string // index term; "" means whole array
-	ghost string
-	path  []pathStep
-	vsort string
+	arr       string // heap array name ("" for ghost)
+	sort      string
+	idx       string // index term; "" means whole array
+	ghost     string
+	path      []pathStep
+	vsort     string
 	cellLocal *ssa.Alloc
-	opaque string
+	opaque    string
 }
 
 func (fx *fnExec) fail(f string, a ...interface{}) {
@@ -1159,82 +1159,108 @@ func (fx *fnExec) localLookup(st *state, at *ssa.BasicBlock) func(string) (sval,
 func (fx *fnExec) loopModified(li *loopInfo) (cells map[*ssa.Alloc]bool, locs []loc, ghosts map[string]bool, allocs bool) {
 	cells = map[*ssa.Alloc]bool{}
 	ghosts = map[string]bool{}
-	for bi := range li.blocks {
-		for _, in := range fx.fn.Blocks[bi].Instrs {
-			if an := fx.anchorName(in); an != "" {
-				for _, gsc := range fx.ct.GhostSets {
-					if gsc.Anchor == an {
-						ghosts[gsc.Target] = true
-					}
+	visited := map[*ssa.Function]bool{fx.fn: true}
+	var scan func(in ssa.Instruction, top bool)
+	scan = func(in ssa.Instruction, top bool) {
+		if an := fx.anchorName(in); top && an != "" {
+			for _, gsc := range fx.ct.GhostSets {
+				if gsc.Anchor == an {
+					ghosts[gsc.Target] = true
 				}
 			}
-			switch x := in.(type) {
-			case *ssa.Alloc:
-				if !x.Heap {
-					cells[x] = true
-				} else {
-					allocs = true
-				}
-			case *ssa.Store:
-				fx.staticStoreTarget(x.Addr, cells, &locs)
-			case *ssa.MapUpdate:
-				mt := x.Map.Type().Underlying().(*types.Map)
-				md, mv, ds, vs := fx.mapArrs(mt)
-				locs = append(locs, loc{arr: md, sort: ds}, loc{arr: mv, sort: vs})
-			case *ssa.MakeMap, *ssa.MakeSlice, *ssa.MakeChan, *ssa.MakeClosure:
+		}
+		switch x := in.(type) {
+		case *ssa.Alloc:
+			if !x.Heap {
+				cells[x] = true
+			} else {
 				allocs = true
-			case *ssa.Go, *ssa.Defer:
-				allocs = true
-			case ssa.CallInstruction:
-				allocs = true
-				if c, ok := in.(*ssa.Call); ok {
-					if bi, ok := c.Call.Value.(*ssa.Builtin); ok && bi.Name() == "append" {
-						et := c.Type().Underlying().(*types.Slice).Elem()
-						arr, srt := fx.elemsArr(et)
-						locs = append(locs, loc{arr: arr, sort: srt})
-						continue
-					}
-				}
-				ct, info := fx.g.contractForCall(fx, x.Common())
-				if ct != nil && info.key == "::(*sync.Mutex).Lock" {
-					if fa, ok := x.Common().Args[0].(*ssa.FieldAddr); ok {
-						stT := deref(fa.X.Type())
-						if n := namedOf(stT); n != nil && n.Obj().Pkg() != nil {
-							for _, fp := range fx.g.cs.FieldProto {
-								if fp.Rule == "locked" && fp.Type == n.Obj().Name() && fp.Pkg == n.Obj().Pkg().Path() {
-									arr, srt := fx.fieldArr(stT, fieldIndex(structOf(stT), fp.Field))
-									locs = append(locs, loc{arr: arr, sort: srt})
-								}
-							}
+			}
+		case *ssa.Store:
+			fx.staticStoreTarget(x.Addr, cells, &locs)
+			if fa, ok := x.Addr.(*ssa.FieldAddr); ok {
+				stT := deref(fa.X.Type())
+				if n := namedOf(stT); n != nil && n.Obj().Pkg() != nil {
+					for _, fd := range fx.g.cs.FieldDelta {
+						if fd.Type == n.Obj().Name() && fd.Pkg == n.Obj().Pkg().Path() && fd.Field == structOf(stT).Field(fa.Field).Name() {
+							ghosts[fd.Ghost] = true
 						}
 					}
 				}
-				if ct != nil && len(ct.Locks) > 0 {
-					for _, fp := range fx.g.cs.FieldProto {
-						if fp.Rule == "locked" {
-							if t := fx.g.lookupType(fp.Pkg, fp.Type); t != nil {
-								arr, srt := fx.fieldArr(t, fieldIndex(structOf(t), fp.Field))
+			}
+		case *ssa.MapUpdate:
+			mt := x.Map.Type().Underlying().(*types.Map)
+			md, mv, ds, vs := fx.mapArrs(mt)
+			locs = append(locs, loc{arr: md, sort: ds}, loc{arr: mv, sort: vs})
+		case *ssa.MakeMap, *ssa.MakeSlice, *ssa.MakeChan, *ssa.MakeClosure:
+			allocs = true
+		case *ssa.Go, *ssa.Defer:
+			allocs = true
+		case ssa.CallInstruction:
+			allocs = true
+			if c, ok := in.(*ssa.Call); ok {
+				if bi, ok := c.Call.Value.(*ssa.Builtin); ok && bi.Name() == "append" {
+					et := c.Type().Underlying().(*types.Slice).Elem()
+					arr, srt := fx.elemsArr(et)
+					locs = append(locs, loc{arr: arr, sort: srt})
+					return
+				}
+			}
+			ct, info := fx.g.contractForCall(fx, x.Common())
+			if ct == nil {
+				// a contract-less callee that is executed in place: its effects are the loop's effects
+				if callee := x.Common().StaticCallee(); callee != nil && callee.Blocks != nil && !visited[callee] {
+					visited[callee] = true
+					for _, b := range callee.Blocks {
+						for _, cin := range b.Instrs {
+							scan(cin, false)
+						}
+					}
+				}
+			}
+			if ct != nil && info.key == "::(*sync.Mutex).Lock" {
+				if fa, ok := x.Common().Args[0].(*ssa.FieldAddr); ok {
+					stT := deref(fa.X.Type())
+					if n := namedOf(stT); n != nil && n.Obj().Pkg() != nil {
+						for _, fp := range fx.g.cs.FieldProto {
+							if fp.Rule == "locked" && fp.Type == n.Obj().Name() && fp.Pkg == n.Obj().Pkg().Path() {
+								arr, srt := fx.fieldArr(stT, fieldIndex(structOf(stT), fp.Field))
 								locs = append(locs, loc{arr: arr, sort: srt})
 							}
 						}
 					}
 				}
-				if ct != nil {
-					for _, m := range ct.Modifies {
-						ls, gh, _ := fx.g.modStatic(fx, ct, info, x.Common(), m)
-						if gh != "" {
-							ghosts[gh] = true
-						}
-						for _, l := range ls {
-							if l.cellLocal != nil {
-								cells[l.cellLocal] = true
-							} else {
-								locs = append(locs, l)
-							}
+			}
+			if ct != nil && len(ct.Locks) > 0 {
+				for _, fp := range fx.g.cs.FieldProto {
+					if fp.Rule == "locked" {
+						if t := fx.g.lookupType(fp.Pkg, fp.Type); t != nil {
+							arr, srt := fx.fieldArr(t, fieldIndex(structOf(t), fp.Field))
+							locs = append(locs, loc{arr: arr, sort: srt})
 						}
 					}
 				}
 			}
+			if ct != nil {
+				for _, m := range ct.Modifies {
+					ls, gh, _ := fx.g.modStatic(fx, ct, info, x.Common(), m)
+					if gh != "" {
+						ghosts[gh] = true
+					}
+					for _, l := range ls {
+						if l.cellLocal != nil {
+							cells[l.cellLocal] = true
+						} else {
+							locs = append(locs, l)
+						}
+					}
+				}
+			}
+		}
+	}
+	for bi := range li.blocks {
+		for _, in := range fx.fn.Blocks[bi].Instrs {
+			scan(in, true)
 		}
 	}
 	return
